@@ -5,9 +5,10 @@
      deliv evs                    the packets handed to the application, in order, each flagged "delivered as a
                                   (re)start" (first packet ever, or the reset branch of reorder)
      fchain / fskipped            consecutive deliveries have forward gap 1..2^15 mod 2^16 / skipped numbers
-     okB bs                       the configured BufferSize (0 = default 64) is 2^k, k <= 14 *)
+     okB bs                       the configured BufferSize (0 = default 64) is 2^k, k <= 15 (1 .. 32768; after fix
+                                  9dc1449 the flush test is int(relPos) >= len(buffer), so 32768 is covered too) *)
 From GVL Require Import NList Wire Wrap.
-From GV_receiver Require Import Model Proofs Steps Hist Fate Top Big.
+From GV_receiver Require Import Model Proofs Steps Hist Fate Top.
 Open Scope Z_scope.
 
 (* inv_reachable: for every transport, every power-of-two buffer size, every history of well-formed
@@ -97,17 +98,6 @@ Theorem C14_receiver_displaced_delivered_refuted : ~ displaced_claim.
 Proof. exact displaced_claim_refuted. Qed.
 Print Assumptions C14_receiver_displaced_delivered_refuted.
 
-(* second refutation (finding bufsize-int16-overflow): BufferSize 32768 is a power of two, but
-   int16(len(buffer)) = -32768 makes every forward packet take the flush branch; arrivals 101 103 102:
-   102 is late by one position, it is dropped, nothing is buffered, it is counted lost.  (The theorems above
-   are stated for sizes 2^k with k <= 14.) *)
-Theorem C14_receiver_bufsize_32768_refuted : exists s' evs,
-  run_ops (init true 32768) (arrivals [101; 103; 102]) = (s', evs) /\
-  late_ok 32768 [101; 103; 102] = true /\
-  delivered_seqs evs = [101; 103] /\ empty_buf (buf s') /\ lost s' = 1.
-Proof. exact bufsize_32768_refuted. Qed.
-Print Assumptions C14_receiver_bufsize_32768_refuted.
-
 (* displaced_delivered_partial, 1: a packet that arrives at or ahead of the head is delivered now or stored,
    unless a packet with the same sequence number is already buffered.  2: the only packets dropped on
    arrival are those behind the head and second copies.  3: a stored packet is delivered (or still buffered
@@ -134,10 +124,14 @@ Theorem C14_receiver_displaced_delivered_partial_3 : forall ops s s' evs,
 Proof. exact stored_eventually. Qed.
 Print Assumptions C14_receiver_displaced_delivered_partial_3.
 
-(* restart_followed: from any reachable state, after B+1 (or more) consecutive packets of a stream that starts
-   anywhere, the head is at the stream's latest packet or fewer than B numbers ahead of it ... *)
+(* restart_followed (buffer sizes up to 2^14 = 16384; see the note below for 32768): from any reachable state,
+   after B+1 (or more) consecutive packets of a stream that starts anywhere, the head is at the stream's latest
+   packet or fewer than B numbers ahead of it ...
+   Size 32768 is excluded here for a reason: relPos is an int16, so relPos >= 32768 never holds, the overflow
+   flush is unreachable, and a stream restarting r < 32768 numbers ahead of the head is buffered for 32768 - r
+   packets and then seen as 'behind' for another 32769 before the restart branch fires. *)
 Theorem C14_receiver_restart_followed : forall s ps s' x p0 rest,
-  Inv s -> first s = true -> unrel s = true ->
+  Inv s -> first s = true -> unrel s = true -> bsize (buf s) <= 16384 ->
   Feeds s ps s' -> consec x ps -> Forall wf ps -> ps = p0 :: rest ->
   bsize (buf s) + 1 <= Z.of_nat (length ps) ->
   tracking s' (pseq (List.last ps p0)) /\ bsize (buf s') = bsize (buf s).
@@ -147,7 +141,8 @@ Print Assumptions C14_receiver_restart_followed.
 (* ... and from then on every packet of the stream is delivered at the front of the output, or dropped
    because its number was already delivered from a stale buffered packet; no loss is reported. *)
 Theorem C14_receiver_restart_tracking_kept : forall s p x,
-  Inv s -> wf p -> first s = true -> unrel s = true -> tracking s x -> pseq p = w16 (x + 1) ->
+  Inv s -> wf p -> first s = true -> unrel s = true -> bsize (buf s) <= 16384 ->
+  tracking s x -> pseq p = w16 (x + 1) ->
   exists s1 out l k, process s p = Ok s1 out l k /\ tracking s1 (pseq p) /\ l = 0 /\
     (out = [] \/ exists rest, out = p :: rest).
 Proof. exact tracking_kept. Qed.
@@ -155,8 +150,16 @@ Print Assumptions C14_receiver_restart_tracking_kept.
 
 (* ---- non-vacuity ---- *)
 (* the default buffer size satisfies okB; so does 4 *)
-Example C14_example_okB : okB 0 /\ okB 4.
-Proof. split; [exact default_ok|]. exists 2. split; [lia|reflexivity]. Qed.
+Example C14_example_okB : okB 0 /\ okB 4 /\ okB 32768.
+Proof. split; [exact default_ok|]. split; [exists 2|exists 15]; (split; [lia|reflexivity]). Qed.
+
+(* regression for fix 9dc1449 (was finding bufsize-int16-overflow): with BufferSize 32768 the packet 102, late by
+   one position, is buffered-for and delivered in order; before the fix it was dropped and counted lost
+   (coq/receiver/history/Big_before_fix_9dc1449.v holds the old refutation) *)
+Example C14_example_bufsize_32768_regression :
+  let '(s', evs) := run_ops (init true 32768) (arrivals [101; 103; 102]) in
+  delivered_seqs evs = [101; 102; 103] /\ lost s' = 0.
+Proof. vm_compute. split; reflexivity. Qed.
 
 (* F12 on the model: B = 4, arrivals 1 3 4 6 5 7..12: 5 is missing from the deliveries, lost = 2 (numbers 2 and 5) *)
 Example C14_example_f12 : exists s' evs, run_ops (init true 4) (arrivals f12_seqs) = (s', evs) /\
